@@ -20,6 +20,7 @@ package main
 // an entry point. Termination and allocation inside dependencies are declined.
 
 import (
+	"strconv"
 	"bytes"
 	"fmt"
 	"go/constant"
@@ -83,7 +84,7 @@ type c04Waiver struct {
 var c04Waivers = []c04Waiver{
 	// --- RFC 3961 arithmetic kernels: operand lengths are fixed by etype constants -----------------
 	{"crypto/rfc3961.Nfold", `^div crypto/rfc3961\.lcm\(n, .*\) / n$`, 1, "n is an etype constant (GetKeySeedBitLength/GetCypherBlockBitLength: 64, 128, 168), never 0"},
-	{"crypto/rfc3961.Nfold", `^index \$L0\[`, 1, "sumBytes holds lcm/8 bytes (lcm/k copies of the len(m)-byte rotation) and j+i*len(sum) < (lcm/n)*(n/8) = lcm/8"},
+	{"crypto/rfc3961.Nfold", `^(index|slice) \$L0\[`, 1, "sumBytes holds lcm/8 bytes (lcm/k copies of the len(m)-byte rotation) and j+i*len(sum) < (lcm/n)*(n/8) = lcm/8"},
 	{"crypto/rfc3961.lcm", `^div \(x \* y\) / crypto/rfc3961\.gcd\(x, y\)$`, 1, "x is the etype constant n > 0, so gcd(x, y) ≥ 1 (gcd returns x when y is 0)"},
 	{"crypto/rfc3961.getBit", `^index \*b\[\(p / 8\)\]$`, 1, "callers iterate p over 0 … 8·len(*b)-1 (onesComplementAddition over slices of equal length n/8, rotateRight over len(b)·8)"},
 	{"crypto/rfc3961.setBit", `^index \*b\[\(p / 8\)\]$`, 1, "callers pass p in 0 … 8·len(*b)-1: the loop index, or (i+step) mod bitLen"},
@@ -107,6 +108,43 @@ var c04Waivers = []c04Waiver{
 	{"keytab.readBytes", `^slice b\[\*p:\(\*p \+ s\)\]$`, 1, "only the lower bound *p ≥ 0 is open: p starts at 0 in Unmarshal and is only advanced by non-negative amounts (the sibling readers test it, this one does not)"},
 	{"pac.(*SignatureData).Unmarshal", `^(slice|index) make\(\[\]byte, len\(b\)\)\[`, 1, "mstypes.Reader.ReadBytes(c) has returned without error after Uint32(): b holds at least 4+c bytes (dependency contract: it fails unless exactly c bytes were read)"},
 	{"spnego.SPNEGOKRB5Authenticate$1", `^assert context\.Context\.Value\(`, 1, "reached only when AcceptSecContext reported authed == true, in which case KRB5Token.Verify stored *credentials.Credentials under ctxCredentials in that context"},
+}
+
+// c04Assumes: documented preconditions of internal functions, stated on their parameters. Unlike a
+// construct waiver, a precondition is independent of how the body spells its indexing: whatever
+// the prover can derive from it is discharged. Forms: "len(@i) >= k", "@i >= k" (@i: i-th
+// parameter, receiver included).
+var c04Assumes = map[string]struct {
+	facts  []string
+	reason string
+}{
+	"crypto/rfc3961.DES3RandomToKey": {[]string{"len(@0) >= 21"}, "b is the 21 byte (168 bit key seed) output of DeriveRandom or Nfold(…, 168)"},
+	"crypto/rfc3961.fixWeakKey":      {[]string{"len(@0) >= 8"}, "b is the 8 byte output of stretch56Bits"},
+}
+
+var assumeRe = regexp.MustCompile(`^(len\()?@(\d+)\)? >= (\d+)$`)
+
+func c04Assumed(bc *boundsCtx, fn *ssa.Function, facts []string) []lin {
+	var out []lin
+	for _, f := range facts {
+		m := assumeRe.FindStringSubmatch(f)
+		if m == nil {
+			continue
+		}
+		i, _ := strconv.Atoi(m[2])
+		k, _ := strconv.ParseInt(m[3], 10, 64)
+		if i >= len(fn.Params) {
+			continue
+		}
+		var l lin
+		if m[1] != "" {
+			l = bc.lenLin(fn.Params[i], 0)
+		} else {
+			l = bc.lin(fn.Params[i])
+		}
+		out = append(out, linConst(k).add(l, -1))
+	}
+	return out
 }
 
 type bceSite struct {
@@ -355,11 +393,20 @@ func runC04(w *World, c *Check) {
 					c.Ok(rule, k, construct, where, "discharged by "+why)
 					continue
 				}
-				if wv := c04WaiverFor(k, construct, helperOwners(cg, fn)); wv != nil {
+				if wv := c04WaiverFor(fn, k, construct, helperOwners(cg, fn)); wv != nil {
 					stats["waiver"]++
 					waiverUse[wv]++
 					c.Ok(rule, k, construct, where, "not input-dependent: "+wv.reason)
 					continue
+				}
+				if as, has := c04Assumes[k]; has {
+					abc := newBoundsCtx(w, fn)
+					abc.assumed = c04Assumed(abc, fn, as.facts)
+					if ok2, _ := c04Discharge(w, c, abc, fn, ob, cg, inScope); ok2 {
+						stats["precondition"]++
+						c.Ok(rule, k, construct, where, "holds under the function's documented precondition ("+strings.Join(as.facts, ", ")+"): "+as.reason)
+						continue
+					}
 				}
 				stats["unproven"]++
 				c.Fail(rule, k, construct, where, c04Desc(ob.kind), why+"; reached from an entry point by "+pathTo(fn))
@@ -405,16 +452,21 @@ var waiverUse = map[*c04Waiver]int{}
 // c04WaiverFor: the waiver for a construct of function fn — a waiver of fn itself, or, when fn is a
 // new helper (extract-method), a waiver of a reference function that reaches fn through new
 // helpers only (owners). Loop symbols are compared without their numbering.
-func c04WaiverFor(fn, construct string, owners []string) *c04Waiver {
+func c04WaiverFor(f *ssa.Function, fn, construct string, owners []string) *c04Waiver {
 	norm := loopSymRe.ReplaceAllString(construct, `$$L`)
 	for i := range c04Waivers {
 		wv := &c04Waivers[i]
 		if wv.fn != fn && !contains(owners, wv.fn) {
 			continue
 		}
-		pat := strings.ReplaceAll(wv.pattern, `\$L0`, `\$L`)
+		wpat := wv.pattern
+		if wv.fn == fn {
+			// the table names parameters as the reference tree does: a renamed parameter is the same value
+			wpat = substParams(f, wpat)
+		}
+		pat := strings.ReplaceAll(wpat, `\$L0`, `\$L`)
 		pat = strings.ReplaceAll(pat, `\$L1`, `\$L`)
-		if compileRe(pat).MatchString(norm) || compileRe(wv.pattern).MatchString(construct) {
+		if compileRe(pat).MatchString(norm) || compileRe(wpat).MatchString(construct) {
 			return wv
 		}
 	}
@@ -832,12 +884,30 @@ func c04CallerEstablished(w *World, bc *boundsCtx, fn *ssa.Function, ob *c04Ob, 
 		}
 		cb := newBoundsCtx(w, caller)
 		for _, g := range ob.goals {
+			if bc.Prove(g, ob.in) {
+				continue // this part holds locally; only what is left is the callers' business
+			}
 			tg, ok := translateLin(bc, cb, fn, site, g)
 			if os.Getenv("C04_DEBUG") != "" {
 				fmt.Fprintf(os.Stderr, "caller-established %s at %s: goal %s -> ok=%v %s\n", FuncKey(fn), FuncKey(caller), bc.linString(g), ok, cb.linString(tg))
 			}
-			if !ok || !cb.Prove(tg, site) {
+			if !ok {
 				return false
+			}
+			if !cb.Prove(tg, site) {
+				// part of the argument may sit on each side of the call (a helper extracted from
+				// below a check keeps its own later checks): what the callee has established at
+				// the obligation, read in the caller's terms, joins what the caller has established
+				facts := cb.factsAt(tg, site)
+				for _, f := range bc.factsAt(g, ob.in) {
+					if tf, ok := translateLin(bc, cb, fn, site, f); ok {
+						facts = append(facts, tf)
+					}
+				}
+				facts = append(facts, cb.extraFacts(tg, facts, site)...)
+				if !cb.prove(tg, facts, 4) {
+					return false
+				}
 			}
 		}
 		sites++
@@ -903,18 +973,66 @@ func translateLin(bc, cb *boundsCtx, fn *ssa.Function, site *ssa.Call, g lin) (l
 		}
 		return nil, false
 	}
+	// an access path below an argument that the caller never evaluates itself (a field of a struct
+	// passed by value): an opaque caller-side name for it — the same path gives the same name, so
+	// facts and goals about it still meet
+	opaque := func(v ssa.Value, isLen bool) (lin, bool) {
+		sub := NewRenderer(bc.w, fn)
+		sub.subst = map[*ssa.Parameter]string{}
+		for i, p := range fn.Params {
+			if i < len(site.Call.Args) {
+				sub.subst[p] = "‹" + cb.r.R(site.Call.Args[i]) + "›"
+			}
+		}
+		want := sub.R(v)
+		if !strings.HasPrefix(want, "‹") || strings.Contains(want, "local<") || strings.Contains(want, "(") && !strings.HasPrefix(want, "‹") {
+			return lin{}, false
+		}
+		// only a field path below the argument: ‹arg›.f.g
+		rest := want[strings.Index(want, "›")+len("›"):]
+		for _, r := range rest {
+			if !(r == '.' || r == '_' || (r >= 'a' && r <= 'z') || (r >= 'A' && r <= 'Z') || (r >= '0' && r <= '9')) {
+				return lin{}, false
+			}
+		}
+		if rest == "" {
+			return lin{}, false
+		}
+		if _, isLoadOrField := v.(*ssa.UnOp); !isLoadOrField {
+			if _, isField := v.(*ssa.Field); !isField {
+				return lin{}, false
+			}
+		}
+		name := want
+		if isLen {
+			name = "len(" + want + ")"
+		}
+		na := atom{kind: 'x', s: name}
+		cb.names[na] = name
+		return linAtom(na), true
+	}
 	for a, cf := range g.t {
 		switch a.kind {
 		case 'v':
 			arg, ok := pathOf(a.v)
 			if !ok {
-				return lin{}, false
+				ol, ok2 := opaque(a.v, false)
+				if !ok2 {
+					return lin{}, false
+				}
+				out = out.add(ol, cf)
+				continue
 			}
 			out = out.add(cb.lin(arg), cf)
 		case 'l':
 			arg, ok := pathOf(a.v)
 			if !ok {
-				return lin{}, false
+				ol, ok2 := opaque(a.v, true)
+				if !ok2 {
+					return lin{}, false
+				}
+				out = out.add(ol, cf)
+				continue
 			}
 			out = out.add(cb.lenLin(arg, 0), cf)
 		case 'm':
